@@ -3,7 +3,7 @@ CONSTANTS
   Nodes = {"a", "b", "c"}
   Delays = {0, 2}
   Dists = {"D1"}
-  MaxLen = 4
+  MaxLen = 5
 VIEW ViewNoHist
 CONSTRAINT SmallConns
 INVARIANT PhaseIsLongestPath
